@@ -319,6 +319,67 @@ def mask_kind(t: Term, sub: Term) -> Optional[str]:
     return None
 
 
+def index_of_mask(t: Term, sub: Term) -> Optional[Tuple[str, bool]]:
+    """(mask kind, rank-stable) when ``t`` is the tensor of the positions where a layer mask is
+    non-zero -- the index form of slicing by that mask: ``nonzero(M)`` made one-dimensional by an
+    operation that names the axis it removes (flatten / view(-1) / reshape(-1) / squeeze(1) /
+    squeeze(-1) / [:, 0]), ``where(M)[0]``, ``nonzero(M, as_tuple=True)[0]``.  ``squeeze()``
+    without an axis is NOT rank-stable: when exactly one element of the mask survives -- the
+    keep-alive minimum -- it also removes the axis of length one and the 0-d index drops the
+    sliced axis of the weight."""
+    t = strip_calls(t, {'long', 'to', 'clone', 'detach', 'contiguous'})
+
+    def nz(x: Term) -> Optional[Tuple[Term, bool]]:
+        """(mask term, as_tuple) for nonzero(M) / M.nonzero() / where(M) / argwhere(M)"""
+        c = callee(x)
+        if x[0] != 'call':
+            return None
+        kw = dict(x[3])
+        if c in ('torch.nonzero', 'torch.argwhere') and x[2]:
+            return x[2][0], kw.get('as_tuple') == ('const', True)
+        if c == 'torch.where' and len(x[2]) == 1:
+            return x[2][0], True
+        mc = method_call(x)
+        if mc and mc[1] in ('nonzero', 'argwhere') and mc[0][0] != 'global':
+            return mc[0], kw.get('as_tuple') == ('const', True)
+        return None
+    # tuple form: where(M)[0]
+    if t[0] == 'sub' and t[2] == ('const', 0):
+        r = nz(t[1])
+        if r and r[1]:
+            k = mask_kind(r[0], sub)
+            return (k, True) if k else None
+    # matrix form made 1-D
+    stable: Optional[bool] = None
+    inner = None
+    mc = method_call(t)
+    c = callee(t) if t[0] == 'call' else None
+    if mc and mc[0][0] != 'global':
+        recv, name, args, kws = mc
+        a0 = args[0] if args else dict(kws).get('dim')
+        if name in ('flatten', 'ravel') or (name in ('view', 'reshape') and
+                                            args == (('const', -1),)):
+            inner, stable = recv, True
+        elif name == 'squeeze':
+            inner = recv
+            stable = a0 in (('const', 1), ('const', -1))
+    elif c in ('torch.flatten', 'torch.ravel') and t[2]:
+        inner, stable = t[2][0], True
+    elif c == 'torch.squeeze' and t[2]:
+        a0 = t[2][1] if len(t[2]) > 1 else dict(t[3]).get('dim')
+        inner, stable = t[2][0], a0 in (('const', 1), ('const', -1))
+    elif t[0] == 'sub' and t[2][0] == 'tuple' and len(t[2][1]) == 2 and \
+            t[2][1][0] == ('slice', NONE, NONE, NONE) and t[2][1][1] == ('const', 0):
+        inner, stable = t[1], True
+    if inner is None:
+        return None
+    r = nz(inner)
+    if r is None or r[1]:
+        return None
+    k = mask_kind(r[0], sub)
+    return (k, bool(stable)) if k else None
+
+
 def slicing(t: Term, sub: Term) -> Optional[Tuple[Term, Dict[int, str], List[str]]]:
     """Decompose nested boolean-mask subscripts: (base tensor, {axis: mask kind}, problems)."""
     axes: Dict[int, str] = {}
@@ -332,6 +393,15 @@ def slicing(t: Term, sub: Term) -> Optional[Tuple[Term, Dict[int, str], List[str
                     probs.append(f'partial slice {show(it)} on axis {i}')
                 continue
             k = mask_kind(it, sub)
+            if k is None:
+                im = index_of_mask(it, sub)
+                if im is not None:
+                    k = im[0]
+                    if not im[1]:
+                        probs.append(f'axis {i} indexed by {short(it, 60)}: squeeze() without an '
+                                     f'axis makes the index 0-dimensional when exactly one '
+                                     f'element of the mask survives (the keep-alive minimum), '
+                                     f'which drops axis {i} of the sliced tensor')
             if k is None:
                 probs.append(f'axis {i} indexed by {short(it, 60)} (not a layer mask)')
             else:
